@@ -164,7 +164,44 @@ PROPS = {
                         "cancellation of the owning caller is outside C20's quantifier (F13, observed in the thorough tier, not claimed)",
                         "outcomes are canonicalised: InternalError(e)/WaiterInternalError(fmt e) -> err e, JoinError/OwnerPanicked -> panic"],
     },
+    "C17": {
+        "modules": ["XetProps.C17"],
+        "theorems": [
+            "Xet.Recon.C17_sequential",
+            "Xet.Recon.C17_parallel",
+            "Xet.Recon.C17_parallel_tiling",
+            "Xet.Recon.C17_seq_eq_par",
+            "Xet.Recon.C17_warm_eq_cold",
+            "Xet.Recon.C17_trim",
+            "Xet.Recon.C17_get_one_term",
+            "Xet.Recon.C17_seq_reported_edge",
+        ],
+        "suites": ["reconstruct"],
+        "level_text": "Theorems for every well-formed plan (any number of terms, repeated xorbs, any fetch ranges containing their terms, "
+                      "any chunk sizes >= 1, no size bounds), every byte range with offset + (end-start) <= |concatenated terms| (or no range, "
+                      "offset 0), every cache behaviour whose hits return what was put, and EVERY completion order of the parallel writer's "
+                      "tasks: the code-shaped model of reconstruct_file_to_writer / reconstruct_file_to_writer_parallel / write_term / "
+                      "get_one_term outputs ((terms' data).drop offset).take len, returns len = bytes written, the positioned writes are "
+                      "pairwise disjoint and tile [0,len), sequential = parallel, warm = cold = no cache, trimming by chunk byte indices returns "
+                      "exactly the term's chunks. Tied to the Rust RemoteClient by a differential run against a loop-back HTTP server and the "
+                      "real DiskCache (output digest + returned length per plan x range x writer x cache mode), plus monitors on the implementation.",
+        "design_ref": "DESIGN.md section 4, C17",
+        "technique": "Lean 4 proof (induction over the term list; pointwise invariant for writes applied in any order) + differential correspondence",
+        "rule": "cases = (plan: 1..9 [40 thorough] terms over 1..4 xorbs of 1..9 [24] chunks of 1..3500 [20500] bytes of non-constant data, "
+                "repeated xorbs / repeated identical terms, fetch-info style exact / enlarged / hull / whole-xorb / mixed (+ a decoy range), "
+                "Vec order shuffled, optional response delays) x (range class: none, whole-explicit, single/first/last byte, random, prefix, "
+                "suffix(end = file length), boundary-aligned, inside-one-term, mid-start-mid-end, straddle-boundary; optional trailing extra "
+                "terms) x (sequential, parallel) x (cache off, cold, warm); distinct by hash(terms, call, data prefix); "
+                "non-trivial = at least 2 terms in the call and a mid-term start or mid-term end",
+        "assumptions": ["HTTP layer / blob store modelled as 'chunk range -> those chunks' (httpmock + reqwest are compared, not proved)",
+                        "chunk cache modelled as an oracle whose hits return the bytes that were put (C12's conclusion, hypothesis CacheFaithful); "
+                        "cache.put has no effect on the value returned by get_one_term (false on the real code under concurrent puts: finding F15)",
+                        "every fetch-info has its own URL (as the production server's presigned per-range URLs); with a URL shared by two "
+                        "fetch ranges the real single-flight group mixes the ranges: finding F14",
+                        "tokio scheduling = arbitrary permutation of the positioned writes; dev-profile panics are explicit model outcomes",
+                        "well-formedness excludes 'no byte range but offset > 0' (sequential writer then returns more than it wrote, theorem C17_seq_reported_edge)"],
+    },
 }
 
-HOOK_COMMITS = ["9bb2102", "a056c58", "25c3aff"]
+HOOK_COMMITS = ["9bb2102", "a056c58", "25c3aff", "24644df", "9cc9f64"]
 NOT_YET = {}
